@@ -18,13 +18,14 @@ from props.gram_sig import load_own_findings
 
 LAWS = {"eq-reflexive", "eq-symmetric", "eq-transitive", "cmp-total", "cmp-antisymmetric", "cmp-transitive",
         "cmp-eq-consistent", "hash-eq-consistent", "signature-encoded", "clone-preserves", "to-owned-preserves",
-        "owned-value-roundtrip", "into-owned-preserves", "std-roundtrip"}
+        "owned-value-roundtrip", "into-owned-preserves", "std-roundtrip", "constructible"}
 
 
 def classify(chk, mism, lines, seed):
     """MISMATCH records -> verdict keys:
          dev:nan:<law>      counterexamples that involve a value containing a NaN (named deviation of LawsCheck)
          <law>:<witness>    anything else"""
+    seen = {}
     for m in mism:
         law = m.get("what")
         if law not in LAWS:
@@ -35,7 +36,13 @@ def classify(chk, mism, lines, seed):
         if m.get("dev"):
             chk.report("dev:%s:%s" % (m["dev"], law), what, replay)
         else:
-            chk.report("%s:%s" % (law, "|".join(str(v)[:60] for v in m["values"])), what, replay)
+            # keep the first few witnesses per law (one replay file each)
+            seen[law] = seen.get(law, 0) + 1
+            if seen[law] <= 6:
+                chk.report("%s:%s" % (law, "|".join(str(v)[:60] for v in m["values"])), what, replay)
+    for law, n in sorted(seen.items()):
+        if n > 6:
+            chk.notes.append("law %s: %d failing tables, the first 6 reported" % (law, n))
 
 
 def validate_parts(obs, parts):
